@@ -195,10 +195,11 @@ func shrinkLines(src, key string, rounds int) string {
 }
 
 type job struct {
-	kind   string // model | ext | corpus
+	kind   string // model | ext | corpus | names
 	src    string
 	enc    string
 	origin string
+	scs    []compa.NameScenario // kind names: the scenarios assembled in src
 }
 
 func main() {
@@ -262,6 +263,25 @@ func main() {
 		}
 		jobs = append(jobs, job{kind: "ext", src: src, origin: "ext:" + strings.Join(names, "+")})
 	}
+	// name-resolution scenarios: the same set every run (constants vary with the seed), 6 per program
+	all := compa.GenNameScenarios(r.Fork(700000))
+	var scs []compa.NameScenario
+	for _, sc := range all {
+		if sc.Name == "pkgconst-expr-chain" {
+			// a recorded finding (forward reference inside a const group): alone, so that it needs no re-run to be attributed
+			jobs = append(jobs, job{kind: "names", src: compa.NamesProgram([]compa.NameScenario{sc}), origin: "names:" + sc.Name, scs: []compa.NameScenario{sc}})
+			continue
+		}
+		scs = append(scs, sc)
+	}
+	for lo := 0; lo < len(scs); lo += 6 {
+		hi := lo + 6
+		if hi > len(scs) {
+			hi = len(scs)
+		}
+		jobs = append(jobs, job{kind: "names", src: compa.NamesProgram(scs[lo:hi]), origin: fmt.Sprintf("names:%d-%d", lo, hi), scs: scs[lo:hi]})
+	}
+	o.Stats["name_scenarios"] = len(all)
 	mains := compa.LoadGoMains()
 	o.Stats["corpus_go_mains"] = len(mains)
 	// the mutated-corpus stream is a FIXED list (constant internal seed, independent of VERIF_SEED):
@@ -321,7 +341,33 @@ func main() {
 			default:
 				o.Count("outcome_ok")
 			}
-			if key, detail := verdict(p); key != "" {
+			if key, detail := verdict(p); key != "" && j.kind == "names" {
+				// attribute the disagreement to single scenarios (each re-run alone)
+				var singles []string
+				for _, sc := range j.scs {
+					singles = append(singles, compa.NamesProgram([]compa.NameScenario{sc}))
+				}
+				found := false
+				var sps []pair
+				if len(j.scs) == 1 {
+					sps = []pair{p}
+				} else {
+					sps = runPairs(singles)
+				}
+				for k, sp := range sps {
+					if sk, sd := verdict(sp); sk != "" {
+						found = true
+						place := "before"
+						if j.scs[k].After {
+							place = "after"
+						}
+						o.Oracle("names:"+j.scs[k].Name+":pkgdecl-"+place+":"+sk, "gosrc\t"+vh.HexS(sp.src), sd)
+					}
+				}
+				if !found {
+					o.Oracle("names:combined:"+key, "gosrc\t"+vh.HexS(j.src), j.origin+": "+detail)
+				}
+			} else if key != "" {
 				src := j.src
 				if !seenKey[key] && len(seenKey) < 2 {
 					// shrink the first instance of at most two kinds per run (each round is a build)
